@@ -12,6 +12,17 @@ def run(rep, tier, seed, replay=None):
         cases = [replay["case_obj"]]
     else:
         cases, rej = codecrun.gen_cases(ctx, rng, n, comp_mode=True, diff_structure_frac=0.25)
+    if not (replay and replay.get("case_obj")):
+        # associated fields of 63/64 bits whose values lie 2^63-1 or more apart: the 6-bit increment width cannot describe
+        # the column, the dataset has no compressed form (fallback required, content unchanged)
+        e = ctx.T.pool["num"][0]
+        for (a0, a1) in ((0x30da24278d5b8207, (1 << 64) - 1), (0, (1 << 64) - 1), (1, 1 << 63), (5, (1 << 63) + 3), (7, 1 << 62)):
+            t = [204057, 31021, 204007, 31021, e, 204000, 204000]
+            try:
+                subs = [gen.walk(ctx.T, 4, t, (lambda f, a=a: dict(gen.choose_value(rng, f), af=a) if f["afw"] == 64 else (dict(raw=1, af=0) if f["desc"] == 31021 else gen.choose_value(rng, f)))) for a in (a0, a1, a0)]
+                cases.append(dict(ed=4, tmpl=t, subsets=subs, same=True))
+            except gen.Reject:
+                pass
     l0 = [gen.case_line(c["ed"], 0, c["tmpl"], c["subsets"]) for c in cases]
     l1 = [gen.case_line(c["ed"], 1, c["tmpl"], c["subsets"]) for c in cases]
     o0 = ctx.run_c(l0)
@@ -61,7 +72,9 @@ def run(rep, tier, seed, replay=None):
                     b = [[(e["desc"], e["val"], e["af"]) for e in codec.c_elements(s)] for s in dsubs0]
                     if a != b:
                         fail = "decoding the compressed message differs from decoding the uncompressed one"
-            if not fail and same and not p["compressed"]:
+            if not fail and same and not p["compressed"] and not mo[i].startswith("ENC ok"):
+                feat["same_structure_without_compressed_form(reference encoder refuses too)"] += 1      # e.g. a 64-bit associated field spanning >= 2^63-1
+            elif not fail and same and not p["compressed"]:
                 rep.violation("C02: correspondence broken: a compressible dataset was not compressed by the library (allowed by the property, but the mirror compresses it)  [case: %s]" % key[:200],
                               dict(robj, correspondence="bufr_dataset_compressible vs Fm94.enc_comp"), no_input=True)
                 nviol += 1
